@@ -227,6 +227,13 @@ def parsePend (s : String) : Option Pend :=
         | _ => none
   | _ => none
 
+/-- `~<entry>`: pending here and also carried by a side-branch block the ledger stores - pending like any other;
+`^<entry>`: only in the side-branch block, never admitted by this node - counts for nothing (`some none`) -/
+def parsePendS (s : String) : Option (Option (Pend × Bool)) :=
+  if s.startsWith "~" then (parsePend (s.drop 1).toString).map (fun p => some (p, true))
+  else if s.startsWith "^" then (parsePend (s.drop 1).toString).map (fun _ => none)
+  else (parsePend s).map (fun p => some (p, false))
+
 def parseKeySig (s : String) : Option (Option Name) :=
   if s == "x" then some none
   else match parseName s with
@@ -299,7 +306,12 @@ def vtx (envS mruleS ownersS pendS faultS iniS isigS usS usigS inputsS actS : St
   if !(ruleNames mrule).all nameInRange then none
   let owners ← (words ownersS).mapM parseOwnerE
   if !(owners.map (·.1)).Nodup then none
-  let pend ← (words pendS).mapM parsePend
+  let pendAll := (← (words pendS).mapM parsePendS).filterMap id
+  let pend := pendAll.map (·.1)
+  -- Evicting the pool records (`ev`) makes a key unreadable only through a pending writer the ledger does not hold:
+  -- the reader finds the copy of a side-carried one (`~`) in the ledger, in a block that is not on the main chain,
+  -- and passes over it like over any unconfirmed version.
+  let pendPlain := (pendAll.filter (fun p => !p.2)).map (·.1)
   let fault ← parseFault faultS
   let ini ← parseName iniS
   if !nameInRange ini then none
@@ -328,11 +340,11 @@ def vtx (envS mruleS ownersS pendS faultS iniS isigS usS usigS inputsS actS : St
   if !preExecutable stored broken acts [] then none
   let faultName : Option Name := match fault with
     | .read _ (.name n) => some n
-    | .evict (.name n) => if pend.contains (.acct n) then some n else none
+    | .evict (.name n) => if pendPlain.contains (.acct n) then some n else none
     | _ => none
   let badM : Act → Bool := fun a => match fault with
     | .read _ (.meth k) => k == methKind a
-    | .evict (.meth k) => k == 0 && methKind a == 0 && pend.contains .meth
+    | .evict (.meth k) => k == 0 && methKind a == 0 && pendPlain.contains .meth
     | _ => false
   let ch : TxChain := {
     env := env,
